@@ -41,6 +41,9 @@ structure ClassInfo where
   attrAccess : Bool
   protectedKeys : List String
   instAttrs : List String
+  /-- every non-dunder name that any method of the class or its bases (package source) assigns on
+  `self` (`self.x = …`, augmented and annotated assignments included), read from the AST -/
+  assignedAttrs : List String
   classAttrs : List String
   childDict : String
   childList : String
